@@ -4,5 +4,4 @@ package main
 
 import "github.com/refraction-networking/conjure/pkg/zzverif/vh"
 
-func verifC04(a *vh.Args) { vh.Fatal("not built") }
 func verifC17(a *vh.Args) { vh.Fatal("not built") }
